@@ -459,6 +459,31 @@ pub(crate) fn verif_error_response(
     )
 }
 
+/// Verification door: the client -> endpoint half of a UDP multiplexer (the real
+/// `DatagramDecoder` with the real codec) over a byte source of the harness
+#[cfg(trusttunnel_verif)]
+pub(crate) fn verif_udp_reader(
+    source: Box<dyn pipe::Source>,
+) -> Box<dyn datagram_pipe::Source<Output = downstream::UdpDatagram>> {
+    Box::new(DatagramDecoder {
+        source,
+        decoder: Box::new(http_udp_codec::Decoder::new(log_utils::IdChain::empty())),
+        pending_bytes: Default::default(),
+    })
+}
+
+/// Verification door: the client -> endpoint half of an ICMP multiplexer over a byte source
+#[cfg(trusttunnel_verif)]
+pub(crate) fn verif_icmp_reader(
+    source: Box<dyn pipe::Source>,
+) -> Box<dyn datagram_pipe::Source<Output = downstream::IcmpDatagram>> {
+    Box::new(DatagramDecoder {
+        source,
+        decoder: Box::new(http_icmp_codec::Decoder::new()),
+        pending_bytes: Default::default(),
+    })
+}
+
 fn fail_request(
     stream: Box<dyn http_codec::Stream>,
     status: StatusCode,
